@@ -190,220 +190,296 @@ def appCallStrings (calls : List (String × List String)) : List String :=
     let args' := args.map fun a => if a.startsWith "%" || (a.splitOn " ").length > 1 then "\"" ++ a ++ "\"" else a
     name ++ (if args'.isEmpty then "" else " ") ++ " ".intercalate args'
 
+def programStart : BM Unit := do
+  addStartLine (.raw "@echo off")
+  addStartLine (.raw "setlocal EnableDelayedExpansion")
+  addStartLine (.raw "setlocal")
+  addStartLine (.raw "set \"_e=0\"")
+
+def sliceAssignmentOp (name index value dflt : String) (global : Bool) : BM Unit := do
+  modify fun s => { s with sahReq := true }
+  let s ← get
+  callFunc "_sah" [value] [varName s name global, index, dflt]
+
+def funcStartOp (name : String) (params : List String) : BM Unit := do
+  modify fun s => { s with funcCounter := s.funcCounter + 1, funcs := name :: s.funcs }
+  addLine (.raw s!":: {name} function begin")
+  addLine (.goto ("_eo_" ++ name))
+  addLine (.label name)
+  setParams params 0
+
+def funcEndOp : BM Unit := do
+  let name ← currentFunc
+  addLine (.label ("_ret_" ++ name))
+  addLine (.raw "exit /B")
+  addLine (.label ("_eo_" ++ name))
+  addLine (.raw s!":: {name} function end")
+  modify fun s => { s with funcs := s.funcs.drop 1 }
+
+def retOp (vals : List String) : BM Unit := do
+  let name ← currentFunc
+  storeRets vals 0
+  addLine (.goto ("_ret_" ++ name))
+
+def ifStartOp (c : String) : BM Unit := do
+  modify fun s => { s with ifs := s!"_i{s.ifCounter}" :: s.ifs, ifCounter := s.ifCounter + 1 }
+  addLine (.opn (ifStartLine c))
+
+def ifEndOp : BM Unit := do
+  let l ← currentIf
+  addLine (.goto l)
+  addLine .close
+  addLine (.label l)
+  modify fun s => { s with ifs := s.ifs.drop 1 }
+
+def elseIfStartOp (c : String) : BM Unit := do
+  let l ← currentIf
+  addLine (.goto l)
+  addLine (.elseIfOpen (ifStartLine c))
+
+def elseStartOp : BM Unit := do
+  let l ← currentIf
+  addLine (.goto l)
+  addLine .elseOpen
+
+def forStartOp : BM Unit := do
+  modify fun s => { s with endLabels := s!"_e{s.forCounter}" :: s.endLabels,
+                            fors := s!"_f{s.forCounter}" :: s.fors, forCounter := s.forCounter + 1 }
+  let s ← get
+  let l ← currentFor
+  addLine (.raw ("set \"" ++ currentForVar s ++ "=\""))
+  addLine (.label l)
+
+def forIncrementStartOp : BM Unit := do
+  let s ← get
+  addLine (.opn ("if defined " ++ currentForVar s ++ " ("))
+
+def forIncrementEndOp : BM Unit := do
+  let s ← get
+  addLine .close
+  addLine (.raw ("set \"" ++ currentForVar s ++ "=1\""))
+
+def forEndTail : List String → BM Unit
+  | e :: rest => do
+      modify fun s => { s with endLabels := rest, fors := s.fors.drop 1 }
+      addLine (.label e)
+  | [] => Tr.panic "index out of range [-1]"
+
+def forEndOp : BM Unit := do
+  let l ← currentFor
+  addLine (.goto l)
+  addLine .close
+  let s ← get
+  forEndTail s.endLabels
+
+def brkTail : List String → BM Unit
+  | e :: _ => addLine (.goto e)
+  | [] => fail "break outside of a loop is not supported"
+
+def brkOp : BM Unit := do
+  let s ← get
+  brkTail s.endLabels
+
+def contOp : BM Unit := do
+  let l ← currentFor
+  addLine (.goto l)
+
+def panicOp (v : String) : BM Unit := do
+  callEcho [v]
+  addLine (.raw "set \"_e=1\"")
+  addLine (.goto "end")
+
+def writeFileOp (path content append : String) : BM Unit := do
+  modify fun s => { s with fwhReq := true }
+  callFunc "_fwh" [content] [path, append]
+
+def unaryOp (expr op : String) : BM String := do
+  let h ← nextHelperVar
+  if op == "!" then do
+    let s ← get
+    addLine (.raw s!"if {expr} equ 1 ({varAssignmentString s h "0" false}) else {varAssignmentString s h "1" false}")
+    varEvaluation h false
+  else fail s!"unknown unary operator \"{op}\""
+
+def notAllowedBin (op : String) (vt : ValueType) : BM String :=
+  fail s!"binary operation {op} is not allowed on type {vt.name}"
+
+def binaryOp (left op right : String) (vt : ValueType) : BM String := do
+  let h ← nextHelperVar
+  if vt.isSlice then notAllowedBin op vt else
+  match vt.dt with
+  | .int =>
+    if op == "*" || op == "/" || op == "+" || op == "-" || op == "%" then do
+      let s ← get
+      addLine (.raw ("set /A \"" ++ varName s h false ++ "=" ++ left ++ (if op == "%" then "%%" else op) ++ right ++ "\""))
+      varEvaluation h false
+    else notAllowedBin op vt
+  | .string =>
+    if op == "+" then do
+      varAssignment h (left ++ right) false
+      varEvaluation h false
+    else notAllowedBin op vt
+  | _ => notAllowedBin op vt
+
+def comparisonOpWith (os q left op right : String) (vt : ValueType) : BM String :=
+  if os.length == 0 then fail s!"comparison {op} is not allowed on type {vt.name}" else do
+  let h ← nextHelperVar
+  let s ← get
+  addLine (.raw s!"if {q}{left}{q} {os} {q}{right}{q} ({varAssignmentString s h "1" false}) else {varAssignmentString s h "0" false}")
+  varEvaluation h false
+
+def comparisonOp (left op right : String) (vt : ValueType) : BM String :=
+  comparisonOpWith (compareOpString op vt).1 (compareOpString op vt).2 left op right vt
+
+def logicalOp (left op right : String) : BM String := do
+  let h ← nextHelperVar
+  let s ← get
+  if op == "&&" then do
+    addLine (.raw s!"if {left} equ 1 (if {right} equ 1 ({varAssignmentString s h "1" false}) else {varAssignmentString s h "0" false}) else {varAssignmentString s h "0" false}")
+    varEvaluation h false
+  else if op == "||" then do
+    addLine (.raw s!"if {left} equ 1 ({varAssignmentString s h "1" false}) else if {right} equ 1 ({varAssignmentString s h "1" false}) else {varAssignmentString s h "0" false}")
+    varEvaluation h false
+  else fail s!"unknown logical operator \"{op}\""
+
+def sliceInstantiationOp (vals : List String) : BM String := do
+  addLine (.raw "set /A \"_dvc=!_dvc!+1\"")
+  let h ← nextHelperVar
+  varAssignment h "_dv!_dvc!" false
+  modify fun s => { s with slsReq := true }
+  let s ← get
+  callFunc "_sls" [] [varEvalString s h false, toString vals.length]
+  sliceInits (varEvalString s h false) vals 0
+  pure (varEvalString s h false)
+
+def sliceEvaluationOp (name index : String) : BM String := do
+  let h ← nextHelperVar
+  let s ← get
+  addLine (.raw ("for /f \"delims=\" %%i in (\"" ++ name ++ "_" ++ index ++ "\") do set \"" ++ varName s h false ++ "=!%%i!\""))
+  varEvaluation h false
+
+def sliceLenOp (name : String) : BM String := do
+  let h ← nextHelperVar
+  modify fun s => { s with slgReq := true }
+  callFunc "_slg" [] [name]
+  let s ← get
+  varAssignment h (varEvalString s "_len" true) false
+  varEvaluation h false
+
+def stringSubscriptOp (value a b : String) : BM String := do
+  let h ← nextHelperVar
+  modify fun s => { s with stshReq := true }
+  callFunc "_stsh" [value] [a, b]
+  let s ← get
+  varAssignment h (varEvalString s "_sub" true) false
+  let s ← get
+  pure (varEvalString s h false)
+
+def stringLenOp (value : String) : BM String := do
+  let h ← nextHelperVar
+  modify fun s => { s with stlhReq := true }
+  callFunc "_stlh" [value] []
+  let s ← get
+  varAssignment h (varEvalString s "_l" true) false
+  varEvaluation h false
+
+def funcCallOp (name : String) (args : List String) (rets : List ValueType) (used : Bool) : BM (List String) := do
+  callFunc name args []
+  let out ← (if used then copyRets rets.length 0 else pure [])
+  pure (out ++ List.replicate (rets.length - out.length) "")
+
+def appCallWith (cs : List String) (used : Bool) : BM (List String) :=
+  if used then do
+    let h1 ← nextHelperVar
+    let h2 ← nextHelperVar
+    modify fun s => { s with appCallReq := true }
+    addLf
+    callFunc "_ach" [" | ".intercalate cs] []
+    let s ← get
+    varAssignment h1 (varEvalString s "_h" true) false
+    let e ← varEvaluation h1 false
+    let s ← get
+    varAssignment h2 (varEvalString s "_te" true) false
+    let s ← get
+    pure [e, "", varEvalString s h2 false]
+  else do
+    addLine (.raw ("call " ++ " | ".intercalate cs))
+    pure ["", "", "0"]
+
+def appCallOp (calls : List (String × List String)) (used : Bool) : BM (List String) :=
+  appCallWith (appCallStrings calls) used
+
+def inputOp (prompt : String) : BM String := do
+  let h ← nextHelperVar
+  addLine (.raw ("set /p \"" ++ h ++ "=" ++ prompt ++ "\""))
+  varEvaluation h false
+
+def copyOp (dst src : String) (global : Bool) : BM String := do
+  modify fun s => { s with schReq := true }
+  let s ← get
+  callFunc "_sch" [] [varName s dst global, src]
+  callFunc "_slg" [] [src]
+  let s ← get
+  pure (varEvalString s "_len" true)
+
+def existsOp (path : String) : BM String := do
+  let h ← nextHelperVar
+  let s ← get
+  addLine (.raw ("if exist \"" ++ path ++ "\" (" ++ varAssignmentString s h "1" false ++ ") else " ++ varAssignmentString s h "0" false))
+  varEvaluation h false
+
+def readFileOp (path : String) : BM String := do
+  let h ← nextHelperVar
+  modify fun s => { s with readReq := true }
+  addLf
+  callFunc "_frh" [] [path]
+  let s ← get
+  varAssignment h (varEvalString s "_h" true) false
+  varEvaluation h false
+
 /-- the batch converter as a `Conv` -/
 def conv : Conv St where
   stringToString := stringToString
-  programStart := do
-      addStartLine (.raw "@echo off")
-      addStartLine (.raw "setlocal EnableDelayedExpansion")
-      addStartLine (.raw "setlocal")
-      addStartLine (.raw "set \"_e=0\"")
+  programStart := programStart
   programEnd := pure ()            -- helpers and end code are added by `dumpLines`
   varDefinition := varAssignment
-  sliceAssignment name index value dflt global := do
-      modify fun s => { s with sahReq := true }
-      let s ← get
-      callFunc "_sah" [value] [varName s name global, index, dflt]
-  funcStart name params := do
-      modify fun s => { s with funcCounter := s.funcCounter + 1, funcs := name :: s.funcs }
-      addLine (.raw s!":: {name} function begin")
-      addLine (.goto ("_eo_" ++ name))
-      addLine (.label name)
-      setParams params 0
-  funcEnd := do
-      let name ← currentFunc
-      addLine (.label ("_ret_" ++ name))
-      addLine (.raw "exit /B")
-      addLine (.label ("_eo_" ++ name))
-      addLine (.raw s!":: {name} function end")
-      modify fun s => { s with funcs := s.funcs.drop 1 }
-  ret vals := do
-      let name ← currentFunc
-      storeRets vals 0
-      addLine (.goto ("_ret_" ++ name))
-  ifStart c := do
-      modify fun s => { s with ifs := s!"_i{s.ifCounter}" :: s.ifs, ifCounter := s.ifCounter + 1 }
-      addLine (.opn (ifStartLine c))
-  ifEnd := do
-      let l ← currentIf
-      addLine (.goto l)
-      addLine .close
-      addLine (.label l)
-      modify fun s => { s with ifs := s.ifs.drop 1 }
-  elseIfStart c := do
-      let l ← currentIf
-      addLine (.goto l)
-      addLine (.elseIfOpen (ifStartLine c))
+  sliceAssignment := sliceAssignmentOp
+  funcStart := funcStartOp
+  funcEnd := funcEndOp
+  ret := retOp
+  ifStart := ifStartOp
+  ifEnd := ifEndOp
+  elseIfStart := elseIfStartOp
   elseIfEnd := pure ()
-  elseStart := do
-      let l ← currentIf
-      addLine (.goto l)
-      addLine .elseOpen
+  elseStart := elseStartOp
   elseEnd := pure ()
-  forStart := do
-      modify fun s => { s with endLabels := s!"_e{s.forCounter}" :: s.endLabels,
-                                fors := s!"_f{s.forCounter}" :: s.fors, forCounter := s.forCounter + 1 }
-      let s ← get
-      let l ← currentFor
-      addLine (.raw ("set \"" ++ currentForVar s ++ "=\""))
-      addLine (.label l)
-  forIncrementStart := do let s ← get; addLine (.opn ("if defined " ++ currentForVar s ++ " ("))
-  forIncrementEnd := do let s ← get; addLine .close; addLine (.raw ("set \"" ++ currentForVar s ++ "=1\""))
+  forStart := forStartOp
+  forIncrementStart := forIncrementStartOp
+  forIncrementEnd := forIncrementEndOp
   forCondition c := addLine (.opn (ifStartLine c))
-  forEnd := do
-      let l ← currentFor
-      addLine (.goto l)
-      addLine .close
-      let s ← get
-      match s.endLabels with
-      | e :: rest => do
-          modify fun s => { s with endLabels := rest, fors := s.fors.drop 1 }
-          addLine (.label e)
-      | [] => Tr.panic "index out of range [-1]"
-  brk := do
-      let s ← get
-      match s.endLabels with
-      | e :: _ => addLine (.goto e)
-      | [] => fail "break outside of a loop is not supported"
-  cont := do
-      let l ← currentFor
-      addLine (.goto l)
+  forEnd := forEndOp
+  brk := brkOp
+  cont := contOp
   print vals := callEcho vals
-  panic v := do
-      callEcho [v]
-      addLine (.raw "set \"_e=1\"")
-      addLine (.goto "end")
-  writeFile path content append := do
-      modify fun s => { s with fwhReq := true }
-      callFunc "_fwh" [content] [path, append]
+  panic := panicOp
+  writeFile := writeFileOp
   nop := addLine (.raw "rem No operation")
-  unaryOperation expr op _ _ := do
-      let h ← nextHelperVar
-      if op == "!" then do
-        let s ← get
-        addLine (.raw s!"if {expr} equ 1 ({varAssignmentString s h "0" false}) else {varAssignmentString s h "1" false}")
-        varEvaluation h false
-      else fail s!"unknown unary operator \"{op}\""
-  binaryOperation left op right vt _ := do
-      let h ← nextHelperVar
-      let notAllowed : BM String := fail s!"binary operation {op} is not allowed on type {vt.name}"
-      if vt.isSlice then notAllowed else
-      match vt.dt with
-      | .int =>
-        if op == "*" || op == "/" || op == "+" || op == "-" || op == "%" then do
-          let op' := if op == "%" then "%%" else op
-          let s ← get
-          addLine (.raw ("set /A \"" ++ varName s h false ++ "=" ++ left ++ op' ++ right ++ "\""))
-          varEvaluation h false
-        else notAllowed
-      | .string =>
-        if op == "+" then do
-          varAssignment h (left ++ right) false
-          varEvaluation h false
-        else notAllowed
-      | _ => notAllowed
-  comparison left op right vt _ := do
-      let (os, q) := compareOpString op vt
-      if os.length == 0 then fail s!"comparison {op} is not allowed on type {vt.name}" else
-      let h ← nextHelperVar
-      let s ← get
-      addLine (.raw s!"if {q}{left}{q} {os} {q}{right}{q} ({varAssignmentString s h "1" false}) else {varAssignmentString s h "0" false}")
-      varEvaluation h false
-  logicalOperation left op right _ _ := do
-      let h ← nextHelperVar
-      let s ← get
-      let t := varAssignmentString s h "1" false
-      let f := varAssignmentString s h "0" false
-      if op == "&&" then do
-        addLine (.raw s!"if {left} equ 1 (if {right} equ 1 ({t}) else {f}) else {f}")
-        varEvaluation h false
-      else if op == "||" then do
-        addLine (.raw s!"if {left} equ 1 ({t}) else if {right} equ 1 ({t}) else {f}")
-        varEvaluation h false
-      else fail s!"unknown logical operator \"{op}\""
+  unaryOperation expr op _ _ := unaryOp expr op
+  binaryOperation left op right vt _ := binaryOp left op right vt
+  comparison left op right vt _ := comparisonOp left op right vt
+  logicalOperation left op right _ _ := logicalOp left op right
   varEvaluation name _ global := varEvaluation name global
-  sliceInstantiation vals _ := do
-      addLine (.raw "set /A \"_dvc=!_dvc!+1\"")
-      let h ← nextHelperVar
-      varAssignment h "_dv!_dvc!" false
-      modify fun s => { s with slsReq := true }
-      let s ← get
-      callFunc "_sls" [] [varEvalString s h false, toString vals.length]
-      sliceInits (varEvalString s h false) vals 0
-      pure (varEvalString s h false)
-  sliceEvaluation name index _ := do
-      let h ← nextHelperVar
-      let s ← get
-      addLine (.raw ("for /f \"delims=\" %%i in (\"" ++ name ++ "_" ++ index ++ "\") do set \"" ++ varName s h false ++ "=!%%i!\""))
-      varEvaluation h false
-  sliceLen name _ := do
-      let h ← nextHelperVar
-      modify fun s => { s with slgReq := true }
-      callFunc "_slg" [] [name]
-      let s ← get
-      varAssignment h (varEvalString s "_len" true) false
-      varEvaluation h false
-  stringSubscript value a b _ := do
-      let h ← nextHelperVar
-      modify fun s => { s with stshReq := true }
-      callFunc "_stsh" [value] [a, b]
-      let s ← get
-      varAssignment h (varEvalString s "_sub" true) false
-      let s ← get
-      pure (varEvalString s h false)
-  stringLen value _ := do
-      let h ← nextHelperVar
-      modify fun s => { s with stlhReq := true }
-      callFunc "_stlh" [value] []
-      let s ← get
-      varAssignment h (varEvalString s "_l" true) false
-      varEvaluation h false
-  funcCall name args rets used := do
-      callFunc name args []
-      let out ← (if used then copyRets rets.length 0 else pure [])
-      pure (out ++ List.replicate (rets.length - out.length) "")
-  appCall calls used := do
-      let cs := appCallStrings calls
-      if used then do
-        let h1 ← nextHelperVar
-        let h2 ← nextHelperVar
-        modify fun s => { s with appCallReq := true }
-        addLf
-        callFunc "_ach" [" | ".intercalate cs] []
-        let s ← get
-        varAssignment h1 (varEvalString s "_h" true) false
-        let e ← varEvaluation h1 false
-        let s ← get
-        varAssignment h2 (varEvalString s "_te" true) false
-        let s ← get
-        pure [e, "", varEvalString s h2 false]
-      else do
-        addLine (.raw ("call " ++ " | ".intercalate cs))
-        pure ["", "", "0"]
-  input prompt _ := do
-      let h ← nextHelperVar
-      addLine (.raw ("set /p \"" ++ h ++ "=" ++ prompt ++ "\""))
-      varEvaluation h false
-  copy dst src _ global := do
-      modify fun s => { s with schReq := true }
-      let s ← get
-      callFunc "_sch" [] [varName s dst global, src]
-      callFunc "_slg" [] [src]
-      let s ← get
-      pure (varEvalString s "_len" true)
-  exists_ path _ := do
-      let h ← nextHelperVar
-      let s ← get
-      addLine (.raw ("if exist \"" ++ path ++ "\" (" ++ varAssignmentString s h "1" false ++ ") else " ++ varAssignmentString s h "0" false))
-      varEvaluation h false
-  readFile path _ := do
-      let h ← nextHelperVar
-      modify fun s => { s with readReq := true }
-      addLf
-      callFunc "_frh" [] [path]
-      let s ← get
-      varAssignment h (varEvalString s "_h" true) false
-      varEvaluation h false
+  sliceInstantiation vals _ := sliceInstantiationOp vals
+  sliceEvaluation name index _ := sliceEvaluationOp name index
+  sliceLen name _ := sliceLenOp name
+  stringSubscript value a b _ := stringSubscriptOp value a b
+  stringLen value _ := stringLenOp value
+  funcCall := funcCallOp
+  appCall := appCallOp
+  input prompt _ := inputOp prompt
+  copy dst src _ global := copyOp dst src global
+  exists_ path _ := existsOp path
+  readFile path _ := readFileOp path
 
 /-! ### ProgramEnd: helper routines -/
 
